@@ -652,8 +652,8 @@ def check(ctx):
     selection(ctx, ld)
     # the formats load reads through a parser of its own: the four tabulator has no (or no sufficient) reader for.  A format tabulator
     # reads line by line (csv, tsv, ndjson ...) that is re-routed through another parser changes what a data line is
-    ctx.run.rule('PRS', "CUSTOM-PARSERS: load.get_custom_parsers registers parsers exactly for 'xml', 'excel-xml', 'sql', 'geojson' (a table "
-                        'confirmed by reading; tabulator reads every other format itself)')
+    ctx.run.rule('PRS', "CUSTOM-PARSERS: load.get_custom_parsers registers no parser for a format tabulator reads itself (csv, tsv, json, "
+                        "ndjson, xls, xlsx, ods, html, gsheet, inline, datapackage), 'sql' excepted (a subclass of tabulator's own)")
     gcp = ld.methods.get('get_custom_parsers')
     if gcp is None:
         raise AnalysisError('load.get_custom_parsers not found')
@@ -678,10 +678,14 @@ def check(ctx):
         if isinstance(c_, ast.Assign) and isinstance(c_.targets[0], ast.Subscript) and isinstance(c_.targets[0].slice, ast.Constant) \
                 and _is_parser(c_.value):
             keys_.add(c_.targets[0].slice.value)
-    want_ = {'xml', 'excel-xml', 'sql', 'geojson'}
-    ctx.run.check(keys_ == want_, 'PRS', gcn.where, gcp.qualname, 'custom parsers for %s' % sorted(want_),
+    # (library fact LF9: the formats tabulator has a parser of its own for - tabulator.config.PARSERS of the pinned version.  `sql` is
+    # the one load has always replaced, with a subclass of tabulator's own SQL parser; a parser for a format tabulator does not know,
+    # such as xml / excel-xml / geojson or a new one, takes nothing away from the formats the property speaks of)
+    native_ = {'csv', 'datapackage', 'gsheet', 'html', 'inline', 'json', 'jsonl', 'ndjson', 'ods', 'sql', 'tsv', 'xls', 'xlsx'}
+    replaced_ = (keys_ & native_) - {'sql'}
+    ctx.run.check(bool(keys_) and not replaced_, 'PRS', gcn.where, gcp.qualname, "no custom parser for a format tabulator reads itself (except 'sql')",
                   'load substitutes its own parser for %s: a format that tabulator reads one record per data line is read by other rules '
-                  '(quoting, escaping), so data lines are merged, split or altered' % sorted(keys_ - want_ or want_ - keys_))
+                  '(quoting, escaping), so data lines are merged, split or altered' % sorted(replaced_))
     # cast_strategy=CAST_WITH_SCHEMA hands the rows to schema_validator: "values of the inferred types, or the offending row handled
     # according to on_error" is its row loop (every checked field of every row is cast; shared clause with C14)
     from checks import C14
